@@ -20,7 +20,7 @@ META = {
     "stubs": ["scipy.optimize.minimize -> evaluates the objective at x0 and at one symbolic candidate within the bounds, returns the better one with fun == f(x) "
               "(scipy's contract), or success=False", "scipy.integrate.solve_ivp/ode -> uninterpreted flow",
               "np/pd/float module globals of mxlpy.fit.*, minimizers._scipy, model, simulator, simulation rebound to proxies"],
-    "outside": "the 'not rewarded for size' law of mean_squared_logarithmic for vectors longer than 1 (z3 unknown); that scipy's optimisers descend; global minimisers; ensemble / carousel / joint routines",
+    "outside": "the 'not rewarded for size' law of mean_squared_logarithmic for vectors longer than 1 (z3 unknown); that scipy's optimisers descend; global minimisers; ensemble / carousel routines and joint_protocol_time_course / joint_mixed (joint_time_course and joint_steady_state are covered, unscaled: the standard-scaled joint objective took z3 250 s and one unknown in a probe)",
     "assumptions_list": ["log is monotone (axiom instances added per pair of applications)", "loss domains: values positive where a loss divides or takes logarithms", "real arithmetic"],
 }
 
@@ -278,6 +278,98 @@ class FitRun(Scenario):
             ctx.eq(f"residual at evaluation {j} = loss(data, prediction at the candidate values)", f, exp)
 
 
+class JointRun(FitRun):
+    """joint_time_course / joint_steady_state over two models with their own data: the objective is the sum of the members' losses."""
+
+    def __init__(self, kind, p0_keys, own_loss=False, own_y0=False, global_y0=False, scaled=False):
+        FitRun.__init__(self, kind, p0_keys, global_y0, scaled)
+        self.own_loss, self.own_y0 = own_loss, own_y0
+        self.key = (f"C20/joint/{kind}/p0-{'+'.join(p0_keys)}/{'y0' if global_y0 else 'no-y0'}{'/member-y0' if own_y0 else ''}"
+                    f"{'/member-loss' if own_loss else ''}/{'scaled' if scaled else 'unscaled'}")
+
+    def run(self, ctx):
+        import mxlpy.fit.routines as fr
+        from vf.props.c09 import PebbleStub
+
+        saved = fr.pebble
+        stub = PebbleStub(ctx)
+        stub.explore = False  # every member runs on its own pickled copy; the order of two independent tasks is C09's subject
+        fr.pebble = stub
+        try:
+            FitRun.run(self, ctx)
+        finally:
+            fr.pebble = saved
+
+    def _run(self, ctx, fm, evals):
+        from mxlpy import fit
+        from mxlpy.fit import losses
+        from mxlpy.minimizers import LocalScipyMinimizer
+
+        sym = ctx.symbolic
+        dt = object if sym else float
+        mA = fm.build(ctx)
+        mB = fm.build(ctx)
+        mB.update_parameter("k", ctx.real("p_kB"))
+        mB.update_variable("x", ctx.real("i_xB"))
+        models = [mA, mB]
+        before = [(dict(m.get_parameter_values()), dict(m.get_initial_conditions())) for m in models]
+        p0 = {k: ctx.real(f"start_{k}") for k in self.p0_keys}
+        tps = [0.5, 1.0]
+        frame = SymFrame if sym and self.scaled else pd.DataFrame
+        if self.kind == "tc":
+            datas = [frame({"x": [ctx.real(f"obs{t}0"), ctx.real(f"obs{t}1")]}, index=tps, dtype=dt) for t in "AB"]
+        else:
+            datas = [pd.Series({"x": ctx.real(f"obs{t}0")}, dtype=dt) for t in "AB"]
+        y0_global = {"x": ctx.real("y0_x")} if self.with_y0 else None
+        y0_B = {"x": ctx.real("y0_xB")} if self.own_y0 else None
+        loss_global = losses.rmse
+        loss_B = losses.mae if self.own_loss else None
+        settings = [fit.FitSettings(model=mA, data=datas[0]), fit.FitSettings(model=mB, data=datas[1], y0=y0_B, loss_fn=loss_B)]
+        fn = fit.joint_time_course if self.kind == "tc" else fit.joint_steady_state
+        with ctx.impl("joint fit"):
+            res = fn(settings, p0=dict(p0), minimizer=LocalScipyMinimizer(), y0=None if y0_global is None else dict(y0_global), loss_fn=loss_global,
+                     bounds={k: (0.125, 8.0) for k in p0}, standard_scale=self.scaled)
+        same = lambda a, b: z3.eq(z3.simplify(as_term(a)), z3.simplify(as_term(b))) if sym else a == b  # noqa: E731
+        for tag, m, (pv0, ic0) in zip("AB", models, before):
+            pv1, ic1 = dict(m.get_parameter_values()), dict(m.get_initial_conditions())
+            ctx.true(f"with copying enabled member {tag}'s parameter and initial values are unchanged",
+                     all(same(pv1[k], pv0[k]) for k in pv0) and all(same(ic1[k], ic0[k]) for k in ic0))
+        ctx.true("joint fit returns a result", not isinstance(res.value, Exception), info=repr(res.value)[:100])
+        if isinstance(res.value, Exception):
+            return
+        fitres = res.value
+
+        def member_loss(i, pars):
+            pv0, ic0 = before[i]
+            y0 = (y0_B if i == 1 and y0_B is not None else y0_global)
+            p = {"k": pars.get("k", pv0["k"])}
+            x0 = pars["x"] if "x" in pars else (y0["x"] if y0 else ic0["x"])
+            data = datas[i]
+            lf = loss_B if i == 1 and loss_B is not None else loss_global
+            if self.kind == "tc":
+                pred = pd.DataFrame({"x": [fm.flow(p, [x0], 0.0, t, sym)[0] for t in tps]}, index=tps, dtype=dt)
+            else:
+                pred = pd.Series({"x": fm.flow(p, [x0], 0.0, 100.0, sym)[0]}, dtype=dt)
+            if self.scaled:
+                mean, std = data.mean(), data.std()
+                return lf((data - mean) / std, (pred - mean) / std)
+            return lf(data, pred)
+
+        def oracle_loss(pars):
+            return member_loss(0, pars) + member_loss(1, pars)
+
+        ctx.true("reported parameters carry the names of p0", set(fitres.best_pars) == set(p0), info=str(list(fitres.best_pars)))
+        with ctx.impl("oracle loss"):
+            recomputed = oracle_loss(dict(fitres.best_pars))
+            at_start = oracle_loss(dict(p0))
+        ctx.eq("the reported loss equals the sum of the members' losses recomputed at the reported parameters", fitres.loss, recomputed)
+        ctx.true("the reported loss is not worse than the starting point's", fitres.loss <= at_start)
+        for j, (x, f, order) in enumerate(evals[:2]):
+            with ctx.impl("oracle loss at candidate"):
+                exp = oracle_loss(dict(zip(order if order is not None else p0, x)))
+            ctx.eq(f"joint residual at evaluation {j} = sum over members of loss(data, prediction at the candidate values)", f, exp)
+
+
 def scenarios(tier, seed):
     scs = []
     ns = (1, 2) if tier == "quick" else (1, 2, 3)
@@ -308,4 +400,12 @@ def scenarios(tier, seed):
     scs.append(FitRun("tc", ("k",), False, True, loss="mean_squared"))
     scs.append(FitRun("tc", ("x", "k"), False, True, loss="mean_squared"))
     scs.append(FitRun("tc", ("k",), True, True, loss="mae"))
+    # joint fits: two models with their own data, initial values and (optionally) loss; the objective is the sum of the members' losses
+    for kind in ("tc", "ss"):
+        scs.append(JointRun(kind, ("k",)))
+        scs.append(JointRun(kind, ("x", "k"), own_loss=True))
+        scs.append(JointRun(kind, ("k",), own_y0=True, global_y0=True))
+        if tier != "quick":
+            scs.append(JointRun(kind, ("k", "x"), own_loss=True, own_y0=True))
+            scs.append(JointRun(kind, ("x",), global_y0=True))
     return scs
